@@ -237,6 +237,7 @@ class Machine:
     def _step(self, v, st):
         k = st[0]
         if k == 'f':
+            if isinstance(v, Ref) and st[1] == 0: return v       # Box -> Unique -> NonNull wrappers are transparent
             if isinstance(v, Agg): return v.f[st[1]]
             if isinstance(v, list): return v[st[1]]
             if isinstance(v, VecObj): return v.items[st[1]]
@@ -785,6 +786,11 @@ class Machine:
         return self.call_fn(f, args)
 
     def resolve_mir(self, q, tr, method, args, callee):
+        if '::' in method:
+            # nested item of a method, e.g. <EASE_WEB as Deref>::deref::__stability
+            inner = method.split('::')[-1]
+            cs = [f for f in self.prog.by_last.get(inner, []) if f.owner == q and len(f.args) == len(args)]
+            return cs[0] if len(cs) == 1 else None
         cands = self.prog.by_last.get(method, [])
         if not cands:
             return None
@@ -803,6 +809,7 @@ class Machine:
                 elif f.impl_trait is not None and not f.impl_trait.startswith('derive:'): s -= 4
             else:
                 if f.impl_span is None and q is None: s += 2       # free function
+                if f.impl_trait is None: s += 1                    # inherent method preferred for a path call
             if q is not None:
                 if f.impl_self == q: s += 3
                 if a0 == q: s += 2
